@@ -7,6 +7,7 @@ The model (`Model/Ack.lean`) describes `ack.rs` / `event.rs` after the two `fix:
 (namespace mask `0b11`; WriteMemStacked refuses `scd_len % 4 ≠ 0`).
 -/
 import CamVerif.Proofs.C08
+import CamVerif.Gen.AckTables
 namespace CamVerif.C08
 open CamVerif CamVerif.Ack
 open CamVerif.Spec.GenCP (slice uintAt)
@@ -411,6 +412,43 @@ theorem event_accepts_encoded (flag req : Nat) (evs : List Event) (last : Option
   simp only [List.length_append, toLE_length, Nat.reduceAdd] at this
   rw [this]
   rfl
+
+/-! ## Tie (G): tables regenerated from `ack.rs` / `event.rs` on every run -/
+
+/-- **gen_tables_agree**: what `tools/gen_ack_tables.py` re-reads from the current source —
+prefix magics, event command id, the namespace expression `(code >> 13) & 0b11` with its
+arms, the fatal-bit shift, every arm of the two status-code `match`es and of the `ScdKind`
+`match` — is what the model implements and what the reference tables prescribe: every
+generated arm is an entry of the reference table with the same meaning, and the tables
+have the same number of pairwise distinct codes.  (With `status_split` this makes the
+source tables, the model and the reference coincide; a source edit of any arm, of the
+mask or of a constant fails this obligation.) -/
+theorem gen_tables_agree :
+    (ACK_PREFIX_MAGIC = Gen.AckTables.ACK_PREFIX_MAGIC ∧ Gen.AckTables.ACK_PREFIX_MAGIC = ACK_MAGIC ∧
+     EVENT_PREFIX_MAGIC = Gen.AckTables.EVENT_PREFIX_MAGIC ∧
+     Gen.AckTables.EVENT_PREFIX_MAGIC = EVENT_MAGIC ∧
+     Ack.EVENT_COMMAND_ID = Gen.AckTables.EVENT_COMMAND_ID ∧
+     Gen.AckTables.EVENT_COMMAND_ID = Spec.GenCPAck.EVENT_COMMAND_ID) ∧
+    (Gen.AckTables.NAMESPACE_SHIFT = 13 ∧ NAMESPACE_MASK = Gen.AckTables.NAMESPACE_MASK ∧
+     Gen.AckTables.NAMESPACE_MASK = 0b11 ∧ Gen.AckTables.FATAL_SHIFT = 15 ∧
+     Gen.AckTables.namespaceArms = [(0, "genCp"), (1, "usb"), (2, "deviceSpecific")]) ∧
+    (∀ e ∈ Gen.AckTables.gencpStatus,
+      (statusClass e.1).map ofClass = some (.genCp e.2) ∧
+      Status.ofCode .dev e.1 = .ok ⟨e.1, .genCp e.2⟩ ∧
+      Status.ofCode .release e.1 = .ok ⟨e.1, .genCp e.2⟩) ∧
+    (Gen.AckTables.gencpStatus.length = genCpTable.length ∧
+      (Gen.AckTables.gencpStatus.map (·.1)).Nodup) ∧
+    (∀ e ∈ Gen.AckTables.usbStatus,
+      (statusClass e.1).map ofClass = some (.usbSpecific e.2) ∧
+      Status.ofCode .dev e.1 = .ok ⟨e.1, .usbSpecific e.2⟩ ∧
+      Status.ofCode .release e.1 = .ok ⟨e.1, .usbSpecific e.2⟩) ∧
+    (Gen.AckTables.usbStatus.length = u3vTable.length ∧
+      (Gen.AckTables.usbStatus.map (·.1)).Nodup) ∧
+    (∀ e ∈ Gen.AckTables.scdKind,
+      (ackKindOfId e.1).map ofKind = some e.2 ∧ ScdKind.ofId e.1 = .ok e.2) ∧
+    (Gen.AckTables.scdKind.length = ackKindTable.length ∧
+      (Gen.AckTables.scdKind.map (·.1)).Nodup) := by
+  refine ⟨by decide, by decide, by decide, by decide, by decide, by decide, by decide, by decide⟩
 
 /-! ## Non-vacuity: concrete packets (the repository's own test vectors and the two
 inputs that exposed the repaired defects) -/
